@@ -101,6 +101,9 @@ func genTTL(rng *rand.Rand) int64 {
 	case 6:
 		return int64(10*365*24) * hour // 10 years
 	case 7:
+		if rng.Intn(4) == 0 {
+			return -int64(60+rng.Intn(40)) * 365 * 24 * hour // expiry before the unix epoch
+		}
 		return -1 // one nanosecond in the past; also equals UnlimitedTTL numerically at ctx level
 	case 8:
 		return -(1 + rng.Int63n(1000)) * int64(time.Millisecond)
@@ -169,8 +172,21 @@ func genScript(profile string, seed int64, idx int, tier string) SScript {
 		s.Cfg.CSL = uint64(rng.Intn(8))
 		efs := []Rat{{0, 1, 0}, {1, 2, 0.5}, {1, 4, 0.25}, {1, 1, 1}, {1, 10, 0.1}, {1, 3, 1.0 / 3}, {9, 10, 0.9}, {1, 64, 1.0 / 64}, {3, 4, 0.75}}
 		s.Cfg.EF = efs[rng.Intn(len(efs))]
-		s.Cfg.DEA = 0
-		s.Cfg.RealJanitor = idx%5 == 4
+		s.Cfg.DEA = []time.Duration{0, time.Millisecond, 30 * time.Minute}[rng.Intn(3)]
+	}
+	if profile == "c11" && idx < 6 && !s.Cfg.RealJanitor {
+		// directed regression scripts: an Unlimited cache whose entries get an expiry only through ExpireAll, then a cycle
+		// after DeleteExpiredAfter has passed (the scan must not be skipped); and never-expiring entries meeting a scanning cycle
+		s.Cfg.TTL = cache.UnlimitedTTL
+		s.Cfg.DEA = time.Millisecond
+		s.Cfg.Jitter = Rat{-1, 1, -1}
+		s.Ops = []SOp{{Kind: "w", K: 1, V: 1}, {Kind: "w", K: 2, V: 2}, {Kind: "cleanup"}}
+		if idx%2 == 0 {
+			s.Ops = append(s.Ops, SOp{Kind: "xa"}, SOp{Kind: "sleep"}, SOp{Kind: "cleanup"}, SOp{Kind: "r", K: 1})
+		} else {
+			s.Ops = append(s.Ops, SOp{Kind: "w", K: 3, V: 3, TTL: -hour}, SOp{Kind: "cleanup"}, SOp{Kind: "r", K: 1}, SOp{Kind: "r", K: 3})
+		}
+		return s
 	}
 	if s.Cfg.RealJanitor {
 		s.Cfg.JobInterval = time.Millisecond
@@ -245,6 +261,7 @@ func genScript(profile string, seed int64, idx int, tier string) SScript {
 type seqFail struct {
 	kind, prop, sig, detail string
 	at                      int
+	also                    []string
 }
 
 type seqExec struct {
@@ -338,10 +355,14 @@ func (x *seqExec) runScript(id string, sc SScript, profile string) *seqFail {
 		}
 		parts := strings.SplitN(reply, " | ", 2)
 		if specOn && len(parts) == 2 && parts[1] != impl {
-			return &seqFail{"monitor", "C07", "seq:" + what, fmt.Sprintf("op #%d %s: impl=%q reference-map=%q", i, sc.Ops[i], impl, parts[1]), i}
+			return &seqFail{"monitor", "C07", "seq:" + what, fmt.Sprintf("op #%d %s: impl=%q reference-map=%q", i, sc.Ops[i], impl, parts[1]), i, []string{"C10", "C18"}}
 		}
 		if parts[0] != impl {
-			return &seqFail{"correspondence", "", "seq:" + what, fmt.Sprintf("op #%d %s: impl=%q model=%q", i, sc.Ops[i], impl, parts[0]), i}
+			if sc.Collide {
+				// with colliding keys the proved model IS the specification (C09_* hold for every hash function)
+				return &seqFail{"monitor", "C09", "seq:" + what, fmt.Sprintf("op #%d %s on a key set with xxhash64 collisions: impl=%q, keyed-store semantics require %q", i, sc.Ops[i], impl, parts[0]), i, nil}
+			}
+			return &seqFail{"correspondence", "", "seq:" + what, fmt.Sprintf("op #%d %s: impl=%q model=%q", i, sc.Ops[i], impl, parts[0]), i, nil}
 		}
 		return nil
 	}
@@ -349,10 +370,11 @@ func (x *seqExec) runScript(id string, sc SScript, profile string) *seqFail {
 		implDump, _ := dumpImpl(b, keys)
 		modelDump := x.d.Ask("be dump " + id)
 		if implDump != modelDump {
-			return &seqFail{"correspondence", "", "seq:state", fmt.Sprintf("after op #%d %s: impl state %q model state %q", i, sc.Ops[i], implDump, modelDump), i}
+			kind, prop, sig := classifyStateDiff(implDump, modelDump, sc.Collide)
+			return &seqFail{kind, prop, sig, fmt.Sprintf("after op #%d %s: impl state %q model state %q", i, sc.Ops[i], implDump, modelDump), i, nil}
 		}
 		if l := b.Len(); fmt.Sprintf("%d | %d", l, l) != x.d.Ask("be len "+id) && specOn {
-			return &seqFail{"monitor", "C07", "seq:len", fmt.Sprintf("after op #%d: Len=%d, model/reference say %s", i, l, x.d.Ask("be len "+id)), i}
+			return &seqFail{"monitor", "C07", "seq:len", fmt.Sprintf("after op #%d: Len=%d, model/reference say %s", i, l, x.d.Ask("be len "+id)), i, nil}
 		}
 		return nil
 	}
@@ -383,7 +405,7 @@ func (x *seqExec) runScript(id string, sc SScript, profile string) *seqFail {
 			if op.Kind == "store" {
 				b.Store(buf, op.V)
 			} else if err := b.Write(c, buf, op.V); err != nil {
-				return &seqFail{"monitor", "C07", "seq:write-error", fmt.Sprintf("op #%d Write failed: %v", i, err), i}
+				return &seqFail{"monitor", "C07", "seq:write-error", fmt.Sprintf("op #%d Write failed: %v", i, err), i, nil}
 			}
 			t1 := now()
 			for j := range buf { // caller reuses its buffer (C09)
@@ -392,11 +414,11 @@ func (x *seqExec) runScript(id string, sc SScript, profile string) *seqFail {
 			_, m := dumpImpl(b, keys)
 			e, ok := m[kid]
 			if !ok {
-				return &seqFail{"monitor", "C07", "seq:write-lost", fmt.Sprintf("op #%d %s: entry not in Walk after Write", i, op), i}
+				return &seqFail{"monitor", "C07", "seq:write-lost", fmt.Sprintf("op #%d %s: entry not in Walk after Write", i, op), i, nil}
 			}
 			r := x.d.Ask(fmt.Sprintf("be w %s %d %d %s %d %d %d %d", id, kid, slot, showTok(op.V), op.TTL, t0, t1, e.E))
 			if r != "ok" {
-				return &seqFail{"monitor", "C10", "seq:expiry-bounds", fmt.Sprintf("op #%d %s: stored expiry outside documented bounds: %s", i, op, r), i}
+				return &seqFail{"monitor", "C10", "seq:expiry-bounds", fmt.Sprintf("op #%d %s: stored expiry outside documented bounds: %s", i, op, r), i, []string{"C07"}}
 			}
 			if op.Kind == "wshort" {
 				for now() <= e.E+2000 {
@@ -487,10 +509,12 @@ func (x *seqExec) runScript(id string, sc SScript, profile string) *seqFail {
 			}
 			r := x.d.Ask(fmt.Sprintf("be xa %s %d %d %s", id, t0, t1, eobs))
 			if r != "ok" {
-				return &seqFail{"monitor", "C07", "seq:expireall", fmt.Sprintf("op #%d ExpireAll: %s", i, r), i}
+				return &seqFail{"monitor", "C07", "seq:expireall", fmt.Sprintf("op #%d ExpireAll: %s", i, r), i, nil}
 			}
 			for now() <= t1+2000 { // make later reads unambiguous
 			}
+		case "sleep":
+			time.Sleep(5 * time.Millisecond)
 		case "da":
 			b.DeleteAll(ctx)
 			x.d.Ask("be da " + id)
@@ -525,11 +549,19 @@ func (x *seqExec) runScript(id string, sc SScript, profile string) *seqFail {
 			evicted := stats.Get(cache.MetricEvict, cfg.Name) - evBefore
 			r := x.d.Ask(fmt.Sprintf("be cleanup %s %d %d ho=0 so=0 hn=1 needed=%d removed=%s evicted=%d", id, t0, t1, needed, rm, evicted))
 			x.res.count("cleanup:" + strings.Fields(r)[0])
+			if r == "ambig" {
+				x.res.Ambiguous++
+				x.ambigInScript = true
+			}
 			if strings.HasPrefix(r, "bad-scan") {
-				return &seqFail{"monitor", "C11", "seq:cleanup-scan", fmt.Sprintf("op #%d cleanup: %s (state before: %s)", i, r, before), i}
+				return &seqFail{"monitor", "C11", "seq:cleanup-scan", fmt.Sprintf("op #%d cleanup: %s (state before: %s)", i, r, before), i, nil}
+			}
+			if strings.HasPrefix(r, "bad-evict") {
+				// entries removed although neither the scan nor a limit breach accounts for them
+				return &seqFail{"monitor", "C11", "seq:cleanup-" + strings.Fields(r)[0], fmt.Sprintf("op #%d cleanup: %s (state before: %s)", i, r, before), i, []string{"C12"}}
 			}
 			if strings.HasPrefix(r, "bad-") {
-				return &seqFail{"monitor", "C12", "seq:cleanup-" + strings.Fields(r)[0], fmt.Sprintf("op #%d cleanup: %s (state before: %s)", i, r, before), i}
+				return &seqFail{"monitor", "C12", "seq:cleanup-" + strings.Fields(r)[0], fmt.Sprintf("op #%d cleanup: %s (state before: %s)", i, r, before), i, nil}
 			}
 			if strings.Contains(r, "evicted=") && !strings.Contains(r, "evicted=none") {
 				x.res.count("cleanup:evicting")
@@ -549,7 +581,7 @@ func (x *seqExec) runScript(id string, sc SScript, profile string) *seqFail {
 		stats.Get(cache.MetricHit, cfg.Name), stats.Get(cache.MetricMiss, cfg.Name), stats.Get(cache.MetricExpired, cfg.Name),
 		stats.Get(cache.MetricWrite, cfg.Name), stats.Get(cache.MetricDelete, cfg.Name), stats.Get(cache.MetricEvict, cfg.Name))
 	if modelStats := x.d.Ask("be stats " + id); implStats != modelStats && !x.ambigInScript {
-		return &seqFail{"monitor", "C18", "seq:metrics", fmt.Sprintf("metric totals: impl %s model %s", implStats, modelStats), len(sc.Ops) - 1}
+		return &seqFail{"monitor", "C18", "seq:metrics", fmt.Sprintf("metric totals: impl %s model %s", implStats, modelStats), len(sc.Ops) - 1, nil}
 	}
 	nontrivial := seen["hit"] && seen["miss"] && seen["exp"]
 	switch profile {
@@ -584,7 +616,7 @@ func (x *seqExec) runJanitorScript(id string, sc SScript, b Backend, keys *KeyTa
 			}
 			t0 := now()
 			if err := b.Write(c, key, op.V); err != nil {
-				return &seqFail{"monitor", "C07", "seq:write-error", err.Error(), i}
+				return &seqFail{"monitor", "C07", "seq:write-error", err.Error(), i, nil}
 			}
 			t1 := now()
 			// jitter is disabled in this mode: E = now+T for a clock reading inside the bracket, or 0
@@ -600,7 +632,7 @@ func (x *seqExec) runJanitorScript(id string, sc SScript, b Backend, keys *KeyTa
 				E = t0 + T
 			}
 			if r := x.d.Ask(fmt.Sprintf("be w %s %d %d %s %d %d %d %d", id, kid, slot, showTok(op.V), op.TTL, t0, t1, E)); r != "ok" {
-				return &seqFail{"correspondence", "", "seq:janitor-write", r, i}
+				return &seqFail{"correspondence", "", "seq:janitor-write", r, i, nil}
 			}
 		case "xa":
 			t0 := now()
@@ -646,7 +678,7 @@ func (x *seqExec) runJanitorScript(id string, sc SScript, b Backend, keys *KeyTa
 					f = nil
 					break
 				}
-				f = &seqFail{"monitor", "C11", "seq:real-janitor", fmt.Sprintf("real janitor (1ms interval) did not reach the state a cleanup cycle must produce within 3s: %s; model state %s", r, modelDump), i}
+				f = &seqFail{"monitor", "C11", "seq:real-janitor", fmt.Sprintf("real janitor (1ms interval) did not reach the state a cleanup cycle must produce within 3s: %s; model state %s", r, modelDump), i, nil}
 				if time.Now().After(deadline) {
 					break
 				}
@@ -706,7 +738,7 @@ func runSeq(o Opts) *Result {
 		rep["original_ops"] = sc.opsString()
 		rep["driver_log_tail"] = tail(d.Log, 30)
 		rep["rerun"] = fmt.Sprintf("harness seq -profile %s -seed %d -only %d", o.Profile, o.Seed, idx)
-		res.Violations = append(res.Violations, Violation{Property: f.prop, Kind: f.kind, Sig: f.sig + ":" + sc.Cfg.Kind, Detail: f.detail, Replay: rep})
+		res.Violations = append(res.Violations, Violation{Property: f.prop, Also: f.also, Kind: f.kind, Sig: f.sig + ":" + sc.Cfg.Kind, Detail: f.detail, Replay: rep})
 		if len(res.Violations) >= 5 {
 			break
 		}
@@ -724,4 +756,36 @@ func tail(l []string, n int) []string {
 		return l[len(l)-n:]
 	}
 	return l
+}
+
+// classifyStateDiff attributes a full-state difference: only usage metrics differ -> C12 (the metric must track the
+// access history), only expiries differ -> C10, foreign key/value under collisions -> C09, otherwise a plain disagreement.
+func classifyStateDiff(impl, model string, collide bool) (kind, prop, sig string) {
+	pi, pm := strings.Fields(impl), strings.Fields(model)
+	if len(pi) == len(pm) {
+		onlyC, onlyE := true, true
+		for j := range pi {
+			a, b := strings.Split(pi[j], ":"), strings.Split(pm[j], ":")
+			if len(a) != 4 || len(b) != 4 || a[0] != b[0] || a[1] != b[1] {
+				onlyC, onlyE = false, false
+				break
+			}
+			if a[2] != b[2] {
+				onlyC = false
+			}
+			if a[3] != b[3] {
+				onlyE = false
+			}
+		}
+		if onlyC && !onlyE {
+			return "monitor", "C12", "seq:usage-metric"
+		}
+		if onlyE && !onlyC {
+			return "monitor", "C10", "seq:expiry-state"
+		}
+	}
+	if collide {
+		return "monitor", "C09", "seq:state"
+	}
+	return "correspondence", "", "seq:state"
 }
